@@ -78,6 +78,9 @@ def sync_lock(group):
         shutil.copy(os.path.join(REPO, "Cargo.lock"), dst)
 
 
+MODULE_OF = {}
+
+
 def harness_names(prop, tier):
     """Harness functions are found by name in the property's source file:
     <id>_q_* run in both tiers, <id>_t_* only in the thorough tier."""
@@ -91,6 +94,7 @@ def harness_names(prop, tier):
             n = m.group(1)
             if n not in names:
                 names.append(n)
+                MODULE_OF[n] = f[:-3].replace("/", "::")
     if tier == "quick":
         names = [n for n in names if n.startswith(pid + "_q_")]
     return names
@@ -115,7 +119,7 @@ def limit(mem_gib):
 
 def run_harness(group, feats, name, caps, logdir, extra=()):
     """Run one harness; returns a result dict."""
-    cmd = cargo_kani_base(group, feats) + ["--harness", name] + list(extra)
+    cmd = cargo_kani_base(group, feats) + ["--harness", MODULE_OF.get(name, "") + "::" + name, "--exact"] + list(extra)
     log = os.path.join(logdir, name + ".log")
     t0 = time.time()
     status = None
@@ -135,7 +139,7 @@ def run_harness(group, feats, name, caps, logdir, extra=()):
             status = "timeout"
     wall = time.time() - t0
     r = parse_log(log)
-    r.update(name=name, wall_s=round(wall, 1), exit=status, log=log, cmd=" ".join(cmd))
+    r.update(name=name, full_name=MODULE_OF.get(name, "") + "::" + name, wall_s=round(wall, 1), exit=status, log=log, cmd=" ".join(cmd))
     if status == "timeout":
         r["verdict"] = "inconclusive"
         r["why"] = "timeout after %ds" % caps["timeout"]
